@@ -5,7 +5,7 @@ import random
 import runner
 from runner import Report, run_shards, merge, seed
 
-NCFG = 76
+NCFG = 88
 INVARIANTS = ['ValuesAreValid', 'EncodeSucceeds', 'RoundTrip', 'Idempotent', 'DecodedIsValid',
               'StrictRefinesLenient', 'DevsOnlyOnFaults']
 
@@ -21,7 +21,7 @@ def _cfg(shard, max_tamper, sel, depth=2, emit=True):
 
 
 def _shards(tier, quick_n):
-    """Schema indices explored: all 76 in thorough; in quick either all (quick_n >= 76) or one
+    """Schema indices explored: all 88 in thorough; in quick either all (quick_n >= 88) or one
     (closed?, catch-all?) combination per slot type, chosen by the seed, so that every slot type
     is met on every run."""
     if tier == 'thorough' or quick_n >= NCFG:
@@ -81,12 +81,14 @@ def wide_stage(rep, prop, sel, per_cfg):
             if not mine:
                 continue
             paths[s] = os.path.join(tmp, 'wide_%d.ndjson' % s)
-            total += widegen.write_trace(paths[s], mine, per_cfg, seed() * 1000 + s)
+            total += widegen.write_trace(paths[s], mine, per_cfg, seed() * 1000 + s, lossy_ts=(prop == 'C05'))
 
         def cfg_for(s):
             c = _cfg(s, 0, sel)
             c['spec'] = 'WSpec'
-            c['invariants'] = ['DriverValuesValid', 'EncodeSucceeds', 'RoundTrip', 'Idempotent', 'DecodedIsValid', 'StrictRefinesLenient']
+            # C05 also records timestamps their format does not carry completely: the encoder is judged, round trips are not
+            c['invariants'] = (['DriverValuesValid', 'EncodeSucceeds'] if prop == 'C05' else
+                               ['DriverValuesValid', 'EncodeSucceeds', 'RoundTrip', 'Idempotent', 'DecodedIsValid', 'StrictRefinesLenient'])
             c['constraints'] = ['WEmit']
             c['_tlc'] = {'env_extra': {'TRACE_FILE': paths[s]}}
             return c
@@ -136,7 +138,7 @@ def _run(prop, tier, replay, max_tamper, quick_n, text):
 
 def check_c04(tier, replay=None):
     return _run('C04', tier, replay, 0, NCFG,
-                'every (schema of 76, root type of 16, boundary-biased valid value) state of StoneWireMC; '
+                'every (schema of 88, root type of 17, boundary-biased valid value) state of StoneWireMC; '
                 'each replayed: build with generated classes, encode, decode strict+lenient through both '
                 'entry points, compare by runtime == and by projected abstract value, re-encode')
 
